@@ -66,12 +66,18 @@ def run_cases(ctx: Ctx, strategy: Any, evaluate: Callable[[Any], Outcome], max_e
     """Collect phase + per-signature shrink phase. Results go to ``ctx.result``."""
     ev = guarded(evaluate)
     t0 = time.time()
-    state = {"stopped": False}
+    # Hypothesis always starts with the all-minimal example; when a shard runs only a handful of (expensive) cases
+    # that would make a large share of the campaign identical, so every shard but the first skips it.
+    skip_first = ctx.shard > 0 and max_examples <= 50
+    state = {"stopped": False, "n": 0}
 
     @hypothesis.seed(ctx.hyp_seed)
-    @base_settings(max_examples, [Phase.generate])
+    @base_settings(max_examples + (1 if skip_first else 0), [Phase.generate])
     @given(strategy)
     def collect(case: Any) -> None:
+        state["n"] += 1
+        if skip_first and state["n"] == 1:
+            return
         if time_budget is not None and time.time() - t0 > time_budget:
             state["stopped"] = True
             raise _Abort
@@ -101,7 +107,7 @@ def _shrink_one(ctx: Ctx, strategy: Any, ev: Callable[[Any], Outcome], sig: str,
     st = {"calls": 0, "found": False, "best": None, "t0": time.time()}
 
     @hypothesis.seed(ctx.hyp_seed)
-    @base_settings(max_examples, [Phase.generate, Phase.shrink])
+    @base_settings(max_examples + 1, [Phase.generate, Phase.shrink])
     @given(strategy)
     def hunt(case: Any) -> None:
         if st["found"]:
